@@ -355,6 +355,33 @@ def feature_families(seed, quick):
             fams.append([dict(st, argv=o) for o in (
                 ["--ff=AMBER"], ["--ff=PARSE", "--nodebump"], ["--ff=AMBER", "--noopt"],
                 ["--ff=CHARMM", "--titration-state-method=propka", "--with-ph=7.0"])])
+    # input kinds: different readers / record types one after the other
+    kinds = [{"item": "1A1P.pdb"}, {"item": "1FAS.cif"},
+             {"item": "cterm_hid_out.pqr", "input_name": "in.pdb"}, {"item": "cterm_hid.pdb"},
+             {"item": "1AJJ.pdb", "chains": [" "]}, {"item": "1AJJ.pdb"},
+             {"item": "cterm_hid.pdb", "lig_het": "ethanol.mol2"},
+             {"item": "5vav_cyclic_peptide.pdb"},
+             {"item": "1BX8.pdb", "window": [3, 20], "chains": ["B", "A"],
+              "damage": [[4, "add_oxt"], [9, "altloc"], [12, "icode"]]}]
+    fams.append([dict(k, argv=["--ff=AMBER"]) for k in kinds])
+    if not quick:
+        fams.append([dict(k, argv=["--ff=PARSE", "--keep-chain", "--include-header"])
+                     for k in kinds])
+    # naming / parameter assignment: one structure under every naming scheme
+    for st in ({"item": "1AJJ.pdb", "window": [3, 16], "waters": 6}, {"item": "cterm_hid.pdb"}):
+        fam = [dict(st, argv=[f"--ff={ff}"]) for ff in FFS]
+        fam += [dict(st, argv=["--ff=PARSE", "--neutraln", "--neutralc"]),
+                dict(st, argv=["--ff=AMBER", "--ffout=CHARMM"]),
+                dict(st, argv=["--ff=CHARMM", "--ffout=AMBER"]),
+                dict(st, argv=["--ff=PARSE", "--ffout=TYL06", "--neutraln"]),
+                dict(st, argv=["--ff=SWANSON", "--ffout=PARSE"]),
+                dict(st, argv=["--userff={userff}", "--usernames={usernames}"],
+                     files={"userff": "custom-ff.dat", "usernames": "custom.names"}),
+                dict(st, argv=["--ff=AMBER", "--assign-only"]),
+                dict(st, argv=["--clean"])]
+        fams.append(fam)
+        if quick:
+            break
     return fams
 
 
